@@ -15,6 +15,7 @@ from ..core import AnalysisError, Loc, Report, Source, norm
 from ..handlers import concrete_handlers, getattr_dispatch, parent_map, stores
 from ..protocol import HandlerProtocol, Roles
 from ..pyfront import Program, body_without_docstring, param_names, self_attr
+from ..resolve import Resolver
 from ..selftest import Edit
 
 ID = "C12"
@@ -50,15 +51,27 @@ def check_commit_routine(prog: Program, rep: Report) -> None:
                and n.targets[0].id == parent_var and norm(n.value) == f"{parent_var}.parent"]
         rep.ob("R12.2-ancestor-walk", bool(parent_var) and len(adv) == 1, Loc(file, lp.lineno, loc.qual), lp.test,
                "every ancestor up to the root must receive the weighted change (walk parent -> parent.parent)")
+        RR = Resolver(reg)
+
+        def entry_of_change_dict(e: ast.AST) -> Optional[ast.AST]:
+            """key expression if e denotes change_dict[key] (directly, through a local, or looked up with .get(key))"""
+            e = RR.res(e)
+            if isinstance(e, ast.Subscript) and self_attr(e.value) == roles.change_dict:
+                return e.slice
+            if isinstance(e, ast.Call) and isinstance(e.func, ast.Attribute) and e.func.attr == "get" and self_attr(e.func.value) == roles.change_dict \
+                    and e.args:
+                return e.args[0]
+            return None
         adds = [n for n in ast.walk(lp) if isinstance(n, ast.AugAssign) and isinstance(n.op, ast.Add)
-                and isinstance(n.target, ast.Subscript) and self_attr(n.target.value.value if isinstance(n.target.value, ast.Subscript) else n.target.value) == roles.change_dict]
+                and isinstance(n.target, ast.Subscript) and entry_of_change_dict(n.target.value) is not None]
         sets = [n for n in ast.walk(lp) if isinstance(n, ast.Assign) and isinstance(n.targets[0], ast.Subscript)
                 and self_attr(n.targets[0].value) == roles.change_dict]
         rep.ob("R12.2-accumulates", len(adds) == 1 and len(sets) == 1, Loc(file, lp.lineno, loc.qual),
                f"{reg.name}: accumulate per ancestor",
                "the change must be added to an existing entry of the ancestor (+=) or start a new entry (copy), once each")
         if adds:
-            key_ok = f"{parent_var}.value.identifier" in (norm(adds[0].target.value.slice) if isinstance(adds[0].target.value, ast.Subscript) else "") or \
+            key_ = entry_of_change_dict(adds[0].target.value)
+            key_ok = (key_ is not None and RR.text(key_) == f"{parent_var}.value.identifier") or \
                 any(isinstance(n, ast.Assign) and norm(n.value) == f"{parent_var}.value.identifier" for n in lp.body)
             rep.ob("R12.2-keyed-by-ancestor", key_ok, Loc(file, adds[0].lineno, loc.qual), adds[0],
                    "the accumulated change must be keyed by the ancestor's identifier")
@@ -66,6 +79,7 @@ def check_commit_routine(prog: Program, rep: Report) -> None:
     cs = roles.canonical[sorted(roles.commit_subtree)[0]]
     loc = Loc(file, cs.lineno, f"{base.name}.{cs.name}")
     parents = parent_map(cs)
+    RC = Resolver(cs)
     for stmt, field, recv, elementwise, value in stores(cs):
         if field != "velocity":
             continue
@@ -80,7 +94,7 @@ def check_commit_routine(prog: Program, rep: Report) -> None:
                    "an already moving composite object must be time-sliced to the event time before its velocity is "
                    "changed in place (otherwise its stored position no longer matches the barycentre)")
             ok_val = isinstance(stmt, ast.AugAssign) and isinstance(stmt.op, ast.Add) and \
-                any(self_attr(n) == roles.change_dict for n in ast.walk(stmt.value))
+                any(self_attr(n) == roles.change_dict for n in ast.walk(RC.res(stmt.value)))
             rep.ob("R12.2-adds-registered-change", ok_val, sloc, stmt,
                    "the in-place change must add the registered change of this unit")
         elif isinstance(value, ast.Constant) and value.value is None:
@@ -91,7 +105,7 @@ def check_commit_routine(prog: Program, rep: Report) -> None:
             ok = len(ts) == 1 and "_event_time" in norm(ts[0].value) and "copy" in norm(ts[0].value)
             rep.ob("R12.2-rest-to-moving-stamp", ok, sloc, stmt,
                    "a composite object that starts to move must get a copy of the event time as its time stamp")
-            okv = any(self_attr(n) == roles.change_dict for n in ast.walk(value)) and "copy" in norm(value)
+            okv = any(self_attr(n) == roles.change_dict for n in ast.walk(RC.res(value))) and "copy" in norm(value)
             rep.ob("R12.2-rest-to-moving-velocity", okv, sloc, stmt,
                    "its velocity must be (a copy of) the registered change")
     rec = [n for n in ast.walk(cs) if isinstance(n, ast.Call) and isinstance(n.func, ast.Attribute)
